@@ -10,6 +10,7 @@ import PxModel.DrvRelay
                  executor:  <n|0|1>@<tick>    (reaper after the round: not due / outcome of the comparison)
         <tick>, <buf>, <send>: as for `relay run` (PxModel/DrvRelay.lean); ticks are always masked
     modes fds <mode> <finished 0|1>
+    modes framing <unix flag 0|1> <kinds>        (kinds: string of t (TCP listener) / u (unix listener), `.` = none)
     modes handoff <sched>                        (`,`-joined thread ids, `.` = empty; the locked protocol of
                                                  delegate_work_to_pool under that schedule)
     modes live                                   (prediction of the model for a live differential run)
@@ -102,6 +103,18 @@ def drv (args : List String) : String :=
         | some ps => csv (ps.map (fun (p : Nat × Nat) => s!"{p.1}:{p.2}"))
       s!"handoff pipe={csv (s.pipe.map it)} acq={csv (s.acq.map toString)} lock={b01 s.lock.isSome} recv={rc}"
     | none => "bad-op"
+  | ["framing", u, kinds] =>
+    let ks : List ConnKind := if kinds == "." then [] else kinds.toList.map (fun c => if c == 't' then .tcp else .unix)
+    let hs := (List.range ks.length).zip ks
+    let flag := u == "1"
+    let pipe := framedPipe senderSends flag hs
+    let it : Item → String := fun x => match x with | .addr i => s!"a{i}" | .fd i => s!"f{i}"
+    let csv : List String → String := fun l => if l.isEmpty then "." else ",".intercalate l
+    let rc := match recvFramed (receiverExpects flag) pipe with
+      | none => "exc"
+      | some ps => csv (ps.map (fun (p : Option Nat × Nat) =>
+          (match p.1 with | none => "-" | some a => toString a) ++ ":" ++ toString p.2))
+    s!"framing pipe={csv (pipe.map it)} recv={rc}"
   | ["live"] =>
     -- `C17_same_transcript_partial` / `C17_local_remote_identical`: the three transcripts coincide
     "live modes-equal=1"
